@@ -24,7 +24,7 @@ def structured(rng, f):
     """one well-typed malformation; returns (files, description)"""
     f = copy.deepcopy(f)
     mods = list(all_mods(f)); ctxs = list(all_ctxs(f))
-    k = rng.randrange(33)
+    k = rng.randrange(34)
     bad = rng.choice(BAD_STRINGS)
     if k == 0 and ctxs:
         a, b = rng.sample(ctxs, 2) if len(ctxs) > 1 else (ctxs[0], ctxs[0]); a["parent"] = b["name"]; b["parent"] = a["name"]; d = "parent cycle"
@@ -102,6 +102,12 @@ def structured(rng, f):
         if rng.random() < 0.6: d0["subdirs"] = (d0.get("subdirs") or []) + ["impd"]
         f["impd/laze.yml"] = [{"modules": [{"name": "impd_mod", "sources": ["d.c"]}, {"sources": ["unnamed.c"]}]}]
         d = "a directory imported (twice) and listed under subdirs"
+    elif k == 33 and ctxs:
+        # var_options whose from: names form a cycle (or name the variable itself) among variables without values
+        c = rng.choice(ctxs)
+        c["var_options"] = dict(c.get("var_options") or {}, **rng.choice([{"VA": {"from": "VB"}, "VB": {"from": "VA"}}, {"VA": {"from": "VA"}},
+                                                                          {"VA": {"from": "VB"}, "VB": {"from": "VC"}, "VC": {"from": "VA", "prefix": "-x"}}]))
+        d = "from: cycle in var_options"
     else:
         m = (mods or [{}])[0]; m["provides"] = [bad]; m["conflicts"] = [bad]; d = "provides/conflicts %r" % bad
     return f, d
